@@ -6,6 +6,9 @@ use crate::{
 use crate::parser::expression::{parse_call_like, parse_expression};
 
 pub fn tokenize_inline_content(content: &str) -> Result<Vec<Node>, CompilerError> {
+    // Braces inside braces come through here again
+    let _nesting = crate::nesting::enter()?;
+
     let mut nodes = Vec::new();
     let mut text = String::new();
     let mut chars = content.char_indices().peekable();
